@@ -49,6 +49,18 @@ func (l *Loaded) isModuleFn(f *ssa.Function) bool {
 		if o := f.Origin(); o != nil && o != f {
 			return l.isModuleFn(o)
 		}
+		// thunks and bound-method wrappers (method expressions / method values): as the method they forward to
+		if f.Synthetic != "" {
+			for _, b := range f.Blocks {
+				for _, in := range b.Instrs {
+					if ci, ok := in.(ssa.CallInstruction); ok {
+						if cal := ci.Common().StaticCallee(); cal != nil && cal != f {
+							return l.isModuleFn(cal)
+						}
+					}
+				}
+			}
+		}
 		return false
 	}
 	return l.modPaths[f.Pkg.Pkg.Path()]
@@ -81,7 +93,7 @@ func Load(dir string, tags string, patterns ...string) (*Loaded, error) {
 }
 
 func buildLoaded(pkgs []*packages.Package, dir string) *Loaded {
-	prog, spkgs := ssautil.AllPackages(pkgs, ssa.GlobalDebug)
+	prog, spkgs := ssautil.AllPackages(pkgs, ssa.GlobalDebug|ssa.InstantiateGenerics)
 	prog.Build()
 	l := &Loaded{fset: prog.Fset, pkgs: pkgs, prog: prog, spkgs: spkgs, funcs: map[string]*ssa.Function{}, modPaths: map[string]bool{}, dir: dir}
 	for _, p := range pkgs {
